@@ -202,11 +202,11 @@ def run_fifo(case, rng):
         # window takes a phantom token; the two pointers are then out of step and up to 2*depth further invented tokens follow
         # at the consumer's pace, long after the reset. Without a delivery inside the window the phantom is withdrawn and
         # nothing is invented. So: invented tokens belong to the listed finding iff the first one after that reset assertion
-        # was DELIVERED inside [assertion, release + 10 cycles of each clock]; the following ones (at most 2*depth + 2) are
-        # its consequences. Invented tokens that start outside such a window, more of them, or a wrong token, are unlisted.
+        # was DELIVERED inside [assertion, release + 10 cycles of each clock]; the ones delivered after the window (at most 2*depth + 2)
+        # are its consequences. Invented tokens that start outside such a window, more of them, or a wrong token, are unlisted.
         j = 0
         phantom = None
-        chain = {}                          # reset assertion -> number of invented tokens attributed to it
+        chain = {}                          # reset assertion -> invented tokens delivered AFTER its window and attributed to it
         for i, b_ in enumerate(dlv):
             jj = j
             while jj < len(acc) and acc[jj] != b_:
@@ -222,9 +222,12 @@ def run_fifo(case, rng):
                     inside = r_[1] is None or cyc <= r_[1] + 10 or a_at_b.get(cyc, 0) <= r_[2] + 10
                     if quiet:
                         info["consumer_stalled_around_resets"] = True
-                    elif inside or (chain.get(r_[0], 0) >= 1 and chain[r_[0]] < 2 * depth + 2):
+                    elif inside:
+                        known = True                      # (one per read-clock cycle while the reset is held)
+                        chain.setdefault(r_[0], 0)
+                    elif r_[0] in chain and chain[r_[0]] < 2 * depth + 2:
                         known = True
-                        chain[r_[0]] = chain.get(r_[0], 0) + 1
+                        chain[r_[0]] += 1
                 if known:
                     phantom = phantom or dict(info, kind="phantom-token-at-reset-assertion")
                     continue                              # not part of the accepted sequence: keep looking from the same place
